@@ -160,7 +160,6 @@ func (d *dir) RepoGet(ctx context.Context, repoStr string) (Repo, error) {
 	}
 	dr.uploads = cache.New[string, *dirRepoUpload](uploadCacheOpts)
 	dr.wgBlock <- struct{}{}
-	d.repos.Set(repoStr, &dr)
 	statDir, err := os.Stat(dr.path)
 	if err == nil && statDir.IsDir() {
 		statIndex, errIndex := os.Stat(filepath.Join(dr.path, indexFile))
@@ -171,6 +170,8 @@ func (d *dir) RepoGet(ctx context.Context, repoStr string) (Repo, error) {
 		}
 	}
 	dr.wg.Add(1)
+	// the repo is only published once it is initialized and counted as in use, the GC ticker picks up cached repos
+	d.repos.Set(repoStr, &dr)
 	return &dr, nil
 }
 
